@@ -82,6 +82,10 @@ def main(argv):
             from . import selftest
 
             return selftest.determinism(args.rest, args.n)
+        if args.what == "selftest-seeded":
+            from . import selftest
+
+            return selftest.seeded(args.rest, args.tier)
         if args.what == "selftest-mutants":
             from . import selftest
 
